@@ -737,6 +737,15 @@ class Rule:
         Returns:
             code to construct the rule in Python.
         """
+        if not self.enabled:
+            # `Rule.create(text)` cannot carry the flag: use the constructor so the disabled rule stays disabled
+            fields = {
+                "enabled": self.enabled,
+                "weight": self.weight,
+                "antecedent": self.antecedent,
+                "consequent": self.consequent,
+            }
+            return representation.as_constructor(self, fields)
         return f"{Op.class_name(self, qualname=True)}.{Rule.create.__name__}('{self.text}')"
 
     @property
